@@ -32,14 +32,17 @@ example : isErr .invalidArgNum (parse [b "ZINTER", b "-1"]) = true := by decide 
 example : isErr .invalidArgNum (parse [b "ZINTER", b "2", b "k1"]) = true := by decide +kernel
 example : cmdOf (parse [b "ZINTER", b "0", b "withscores"]) = some (.zinter [] [] true) := by decide +kernel
 
-/-! ### D13: `parser.Enum` and the CONFIG sub-command compare case-sensitively -/
+/-! ### D13 (repaired, `fix:` 3rd session): `parser.Enum` and the CONFIG sub-command fold case; the LOWERED value is kept -/
 
-example : isErr .syntaxError (parse [b "LINSERT", b "k", b "BEFORE", b "p", b "e"]) = true := by decide +kernel
+example : cmdOf (parse [b "LINSERT", b "k", b "BEFORE", b "p", b "e"])
+    = some (.linsert (b "k") (b "before") (b "p") (b "e")) := by decide +kernel
 example : cmdOf (parse [b "LINSERT", b "k", b "before", b "p", b "e"])
     = some (.linsert (b "k") (b "before") (b "p") (b "e")) := by decide +kernel
-example : isErr .syntaxError (parse [b "SCAN", b "0", b "TYPE", b "STRING"]) = true := by decide +kernel
-example : isErr .syntaxError (parse [b "ZUNION", b "1", b "k", b "AGGREGATE", b "SUM"]) = true := by decide +kernel
-example : isErr .unknownSubcmd (parse [b "CONFIG", b "GET", b "x"]) = true := by decide +kernel
+example : isErr .syntaxError (parse [b "LINSERT", b "k", b "BEFOR", b "p", b "e"]) = true := by decide +kernel
+example : isErr .syntaxError (parse [b "SCAN", b "0", b "TYPE", b "STRING"]) = false := by decide +kernel
+example : isErr .syntaxError (parse [b "ZUNION", b "1", b "k", b "AGGREGATE", b "SUM"]) = false := by decide +kernel
+example : cmdOf (parse [b "CONFIG", b "GET", b "x"]) = some (.config (b "get") [b "x"]) := by decide +kernel
+example : isErr .unknownSubcmd (parse [b "CONFIG", b "SET", b "x", b "y"]) = true := by decide +kernel
 -- … while `Flag` and `Named` keywords and the command name fold case
 example : cmdOf (parse [b "sEt", b "k", b "v", b "Nx", b "eX", b "100"])
     = some (.set (b "k") (b "v") true false false 100000 none false) := by decide +kernel
